@@ -10,3 +10,6 @@ Proof. reflexivity. Qed.
 
 Lemma cache_not_found_message : gen_const_MessageMissingCachedQuery = verified_const_MessageMissingCachedQuery.
 Proof. reflexivity. Qed.
+
+Lemma cache_default_ttl : gen_const_defaultTTL = verified_const_defaultTTL.
+Proof. reflexivity. Qed.
